@@ -29,7 +29,7 @@ var bodyTemplates = [][]string{
 	// 6 HTML blocks
 	{"<pre>\n{w}\n\n{w}</pre>", "<script>\n{w}\n</script> {w}", "<!-- {w}\n\n{w} -->", "<?{w}\n?>", "<!DOCTYPE {w}>", "<![CDATA[\n{w}\n]]>", "<div>\n{w}", "</div>\n*{w}*", "<a href=\"{w}\">\n{w}", "<{w} />\n{w}", "<style\n{w}", "<textarea>{w}</textarea>", "<!-->", "<!--->\n{w}", "<DIV class=\"{w}\">", "<table>\n<tr>\n\n<td>", "<p>{w}", "<b>\n{w}"},
 	// 7 reference definitions
-	{"[{w}]: /url", "[foo]: /u \"t\"", "[foo]:\n/url\n'title'", "[{w}]: /url 'ti\ntle'", "[foo\nbar]: /u", "[foo]: <u v> (t)", "[foo]: /u\n[bar]: /v\n{w}", "[foo]: /u \"t\" {w}", "[foo]: /u\n\"t\" {w}", "[foo]: /u\\", "[foo]: /u\\\n{w}", "[foo]: /u\n-", "[ foo ]:\n  /u\n  (t\nt)", "[foo]: /url\n[foo]: /other", "[FOO bar]: /u", "[foo]: <b\\\nc>", "[foo]: <b\\>\n{w}", "[foo]: /u \"t\\\n\"", "[foo\\\nbar]: /u", "[foo]: /u\n \"t\"\n [bar]: /v"},
+	{"[{w}]: /url", "[foo]: /u \"t\"", "[foo]:\n/url\n'title'", "[{w}]: /url 'ti\ntle'", "[foo\nbar]: /u", "[foo]: <u v> (t)", "[foo]: /u\n[bar]: /v\n{w}", "[foo]: /u \"t\" {w}", "[foo]: /u\n\"t\" {w}", "[foo]: /u\\", "[foo]: /u\\\n{w}", "[foo]: /u\n-", "[ foo ]:\n  /u\n  (t\nt)", "[foo]: /url\n[foo]: /other", "[FOO bar]: /u", "[foo]: <b\\\nc>", "[foo]: <b\\>\n{w}", "[foo]: /u \"t\\\n\"", "[foo\\\nbar]: /u", "[foo]: /u\n \"t\"\n [bar]: /v", "[foo]: /u\n\t[bar]: /v", "[foo]: /u\n \t[bar]: /v\n{w}", "[foo]: /u\n\f[bar]: /v", "[foo]: /u\n    [bar]: /v\n\t\t[baz]: /w\n\n{w}", "[foo]: /u\n  \t[bar]:\n\t/v\n\t't'\n{w}", "[foo]: /u\n\t\f [bar]: /v", "[foo]: /u\n\v[bar]: /v"},
 	// 8 inline links over lines
 	{"[{w}\n{w}](/url\n\"ti\ntle\")", "[{w}](<b\nc>)", "[{w}](/u\\", "[{w}](/u\n'{w}'\n)", "[{w}]( /u )", "[{w}](/u \"t\"\n{w})", "[a [b](c) d](e)", "[{w}](\n/u\n)", "[{w}](/u (t\nt))", "[{w}](<>)", "[{w}]()", "[{w}](/u\\\n)", "![{w}\n{w}](/u \"t\")", "![*{w}*](y \"z\")", "![[{w}](a)](b)", "![](x)", "![&amp;{w}](x)", "[![{w}](a)](b)", "[{w}](/a(b)c)", "[{w}](/a\\(b)", "[{w}](<b\\\nc>)", "[{w}](<b\nc>)", "[{w}](<b c\\>)", "[{w}](</u> \"t\\\nu\")", "[{w}](/u '\\\n')", "[{w}](/u (a\\\nb))", "![{w}](<\\\n>)"},
 	// 9 reference links
@@ -62,6 +62,8 @@ type lineContainer struct {
 }
 
 func (c *lineContainer) width() int { return len(c.marker) + c.pad }
+
+var contIndents = []string{"\t", " \t", "  \t", "   \t", "\t\t", "\t ", "   ", "    ", "     ", "\f", " \f", "\t\f "}
 
 var listMarkers = []string{"-", "+", "*", "1.", "2)", "7.", "10.", "123456789)", "0."}
 
@@ -124,6 +126,10 @@ func Lines(r *core.Rand, profile string) []byte {
 		}
 		bodyLines := strings.Split(body, "\n")
 		for li, line := range bodyLines {
+			if li > 0 && line != "" && profile != "tabfree" && r.Intn(16) == 0 {
+				// extra white space in front of a continuation line: tabs, mixed runs, form feed
+				line = contIndents[r.Intn(len(contIndents))] + line
+			}
 			// prefix
 			for si := range stack {
 				c := &stack[si]
@@ -132,10 +138,22 @@ func Lines(r *core.Rand, profile string) []byte {
 					if wrong {
 						continue // lazy continuation / container closing
 					}
-					sb.WriteString(strings.Repeat(" ", r.Intn(20)/17)) // mostly 0
+					switch k := r.Intn(40); {
+					case k < 34: // mostly 0
+					case k < 37:
+						sb.WriteByte(' ')
+					default:
+						sb.WriteString(strings.Repeat(" ", k-35)) // 2 or 3, 4 once in a while
+					}
 					sb.WriteByte('>')
 					if line != "" || si < len(stack)-1 || r.Bool() {
-						if r.Intn(10) != 0 {
+						switch k := r.Intn(20); {
+						case k < 2:
+						case k == 2 && profile != "tabfree":
+							sb.WriteByte('\t') // the optional space is one column of the tab
+						case k == 3 && profile != "tabfree":
+							sb.WriteString(" \t")
+						default:
 							sb.WriteByte(' ')
 						}
 					}
@@ -154,8 +172,17 @@ func Lines(r *core.Rand, profile string) []byte {
 					if line == "" && si == len(stack)-1 && r.Bool() {
 						w = 0
 					}
-					sb.WriteString(strings.Repeat(" ", w))
+					if w > 0 && profile != "tabfree" && r.Intn(12) == 0 {
+						// the same indentation written with a tab that overshoots it (partly consumed)
+						sb.WriteString(strings.Repeat(" ", r.Intn(w)) + "\t")
+					} else {
+						sb.WriteString(strings.Repeat(" ", w))
+					}
 				}
+			}
+			if profile == "hostile" && r.Intn(10) == 0 {
+				// hostile first bytes of the line's content (right after a possibly split tab)
+				line = []string{"\x00", "\x00\x00", "\xc3", "\\", "\r", "\x00]", "\t\x00"}[r.Intn(7)] + line
 			}
 			sb.WriteString(line)
 			if ci == nChunks-1 && li == len(bodyLines)-1 && r.Intn(3) == 0 {
